@@ -460,6 +460,38 @@ theorem collector_unwinds_iff_job_panicked (path : CollectPath) (r : JobResult) 
     collect path (catchUnwindIo r) = .unwind p ↔ r = .panicked p := by
   cases r <;> simp [collect, catchUnwindIo, resumeUnwindIo]
 
+/-! ## 7. Configuration extremes: the new worker reaches `recv` for every idle timeout -/
+
+/-- **for every timeout value** (0, 1 ns, `u64::MAX / 2` s, `Duration::MAX`, …) the prologue of a new pool
+thread ends in `recv_timeout` — the deadline arithmetic is checked, nothing panics before the first `recv` -/
+theorem worker_reaches_recv_for_every_timeout (now timeout : Nat) :
+    ∃ deadline, workerPrologue now timeout = .enterRecv deadline ∧ workerPrologue now timeout ≠ .panic :=
+  ⟨checkedDeadline now timeout, rfl, by simp [workerPrologue]⟩
+
+/-- an overflowing deadline means "never retire", and a representable one fires exactly from the deadline on -/
+theorem deadline_checked (now timeout t : Nat) :
+    (instantMax ≤ now + timeout → timerMayFire (checkedDeadline now timeout) t = false) ∧
+    (now + timeout < instantMax → (timerMayFire (checkedDeadline now timeout) t = true ↔ now + timeout ≤ t)) := by
+  unfold checkedDeadline timerMayFire
+  constructor
+  · intro h; rw [if_neg (by omega)]
+  · intro h; rw [if_pos h]; simp
+
+/-- **a dispatched job is received by the new worker**: once the limit check has passed (nobody parked, no
+sender queued), `spawn`, `send`, and the new thread's `count` and `recv` are all enabled one after the
+other and the thread runs the job — no timer event is involved, so this holds for every idle timeout. -/
+theorem dispatched_job_received_by_new_worker {s : State} {d j : Nat} (hd : d < s.nd) (hs : s.disp d = .spawning j)
+    (hw : s.waiting = []) (hq : s.sendq = []) :
+    ∃ s', run? s [.spawn d, .send d, .count s.nw, .recv s.nw] = some s' ∧ s'.wrk s.nw = .running j
+      ∧ s'.disp d = .idle ∧ s'.sendq = [] := by
+  cases hr : s.reserve
+  all_goals
+    apply Exists.intro
+    refine ⟨?_, ?_⟩
+    · simp [run?, step?, doSpawn, doSend, doCount, doRecv, hd, hs, hw, hq, hr, upd]
+      rfl
+    · simp [upd]
+
 /-! ## non-vacuity -/
 
 /-- a schedule in which two jobs are accepted, run and delivered (one by `try_send` to the parked worker) -/
